@@ -138,6 +138,28 @@ template <class S, size_t DIM> void intervals(vf::Ctx& c, const char* tname) {
   }
 }
 
+
+// the unique extreme of a larger set at EVERY index in turn (block / chunk boundaries of a vectorised sweep)
+template <class PT> void extreme_positions(vf::Ctx& c, const char* tname) {
+  using S = typename PT::Scalar; constexpr int DIM = PointTraits<PT>::DIM, SIZE = PointTraits<PT>::SIZE;
+  for (int n : {9, 33, 130, 513, 600, 1030}) {
+    PointSet<PT> base;
+    for (int i = 0; i < n; ++i) { PT p = PT::Zero(); if (SIZE > DIM) p[SIZE - 1] = 1; for (int d = 0; d < DIM; ++d) p[d] = (S)(-1.0 + 2.0 * ((i * (7 + 4 * d) + 3 * d) % 97) / 96.0 - 40.0); base.push_back(p); }   // all-negative octant
+    for (int i = 0; i < n; ++i) {
+      PointSet<PT> pts = base; pts[i][0] = (S)-47; pts[i][1] = (S)-30;   // unique minimum on axis 0 and unique maximum on axis 1 at index i
+      PointSetPreconditioner<PT> pre(pts);
+      c.eval(); c.nontrivial();
+      Eigen::Matrix<S, SIZE, 1> mn = pts[0], mx = pts[0]; for (auto& q : pts) for (int d = 0; d < SIZE; ++d) { mn[d] = std::min(mn[d], q[d]); mx[d] = std::max(mx[d], q[d]); }
+      S side = 0; for (int d = 0; d < DIM; ++d) side = std::max(side, (S)(mx[d] - mn[d]));
+      S wantScale = (S)1 / side;
+      bool ok = std::fabs(pre.getScale() - wantScale) <= 4 * std::numeric_limits<S>::epsilon() * wantScale;
+      for (int d = 0; d < SIZE; ++d) if (pre.getPointSetMin()[d] != mn[d] || pre.getPointSetMax()[d] != mx[d]) ok = false;
+      c.obs((double)pre.getPointSetMin()[0]); c.obs((double)pre.getPointSetMax()[1]);
+      if (!ok) { c.violation("PointSetPreconditioner.extents", vf::JO().str("type", tname).str("explorer", "extreme at every index").i("points", n).i("index_of_the_extreme", i).done(), vf::JO().raw("min", vj(pre.getPointSetMin())).raw("max", vj(pre.getPointSetMax())).num("scale", pre.getScale()).num("want_scale", wantScale).done()); break; }
+    }
+  }
+}
+
 // ---- point-set extents --------------------------------------------------------------------------------------------
 template <class PT> void extents(vf::Ctx& c, const char* tname) {
   using S = typename PT::Scalar;
@@ -176,6 +198,12 @@ template <class PT> void extents(vf::Ctx& c, const char* tname) {
       for (int d = 0; d < SIZE; ++d) if (cp.getPointSetMin()[d] != pre.getPointSetMin()[d] || as.getPointSetMin()[d] != pre.getPointSetMin()[d] || cp.getPointSetMax()[d] != pre.getPointSetMax()[d] || as.getPointSetMax()[d] != pre.getPointSetMax()[d] || cp.getPointSetMean()[d] != pre.getPointSetMean()[d] || as.getPointSetMean()[d] != pre.getPointSetMean()[d]) same = false;
       if (!same && side > 0) c.violation("PointSetPreconditioner.copyOrAssignedDiffers", params, "{}");
     }
+    {   // a buffer refilled in place (same PointSet object, same size, other coordinates) and computed again by the same preconditioner
+      PointSet<PT> buf(pts.size(), PT(PT::Constant((S)9))); PointSetPreconditioner<PT> pb(buf); for (size_t i = 0; i < pts.size(); ++i) buf[i] = pts[i]; pb.compute(buf);
+      bool same = pb.getScale() == pre.getScale() || (pb.getScale() != pb.getScale() && pre.getScale() != pre.getScale());
+      for (int d = 0; d < SIZE; ++d) if (pb.getPointSetMin()[d] != pre.getPointSetMin()[d] || pb.getPointSetMax()[d] != pre.getPointSetMax()[d] || pb.getPointSetMean()[d] != pre.getPointSetMean()[d]) same = false;
+      if (!same) c.violation("PointSetPreconditioner.recompute", params, vf::JO().str("history", "compute(buffer); buffer refilled in place; compute(buffer)").done());
+    }
     // recompute on the same object with another set: no leftovers
     PointSet<PT> one; one.push_back(pts[0]);
     pre.compute(one);
@@ -201,7 +229,7 @@ template <class S, int DIM> void containers(vf::Ctx& c, const char* tname) {
 }  // namespace
 
 // cases: 4 types x 5 first-axis centres (boxes) ; 4 interval ; 8 extents ; 1 containers
-uint64_t vf_ncases(const std::string& tier) { g_th = tier == "thorough"; return 20 + 4 + 8 + 1; }
+uint64_t vf_ncases(const std::string& tier) { g_th = tier == "thorough"; return 20 + 4 + 8 + 1 + 8; }
 
 void vf_run(uint64_t idx, const std::string& tier, vf::Ctx& c) {
   g_th = tier == "thorough";
@@ -215,7 +243,13 @@ void vf_run(uint64_t idx, const std::string& tier, vf::Ctx& c) {
       case 0: extents<Eigen::Vector2d>(c, "Vector2d"); break; case 1: extents<Eigen::Vector3d>(c, "Vector3d"); break; case 2: extents<Eigen::Vector2f>(c, "Vector2f"); break; case 3: extents<Eigen::Vector3f>(c, "Vector3f"); break;
       case 4: extents<HomogeneousCoordinates2d>(c, "Homogeneous2d"); break; case 5: extents<HomogeneousCoordinates3d>(c, "Homogeneous3d"); break; case 6: extents<HomogeneousCoordinates2f>(c, "Homogeneous2f"); break; default: extents<HomogeneousCoordinates3f>(c, "Homogeneous3f");
     }
-  } else { containers<double, 2>(c, "double"); containers<double, 3>(c, "double"); containers<float, 2>(c, "float"); containers<float, 3>(c, "float"); }
+  } else if (idx == 32) { containers<double, 2>(c, "double"); containers<double, 3>(c, "double"); containers<float, 2>(c, "float"); containers<float, 3>(c, "float"); }
+  else {
+    switch (idx - 33) {
+      case 0: extreme_positions<Eigen::Vector2d>(c, "Vector2d"); break; case 1: extreme_positions<Eigen::Vector3d>(c, "Vector3d"); break; case 2: extreme_positions<Eigen::Vector2f>(c, "Vector2f"); break; case 3: extreme_positions<Eigen::Vector3f>(c, "Vector3f"); break;
+      case 4: extreme_positions<HomogeneousCoordinates2d>(c, "Homogeneous2d"); break; case 5: extreme_positions<HomogeneousCoordinates3d>(c, "Homogeneous3d"); break; case 6: extreme_positions<HomogeneousCoordinates2f>(c, "Homogeneous2f"); break; default: extreme_positions<HomogeneousCoordinates3f>(c, "Homogeneous3f");
+    }
+  }
 }
 
 std::string vf_describe(const std::string& tier) {
@@ -225,7 +259,7 @@ std::string vf_describe(const std::string& tier) {
   o.str("rotations", "2D: 16 angles (multiples of pi/8, some offset by 0.1); 3D: 6 axes x {0,0.3,pi/2,2,pi,-1.1}");
   o.str("query_points", "box-frame lattice per axis {0,+-h/2,+-h,+-h(1+-2^-20),+-2h,+-(h+0.5)} mapped to world; points within 8 ulp of a face accept either verdict, except centre 0 without rotation where the face verdict is exact");
   o.str("intervals", "all pairs of intervals with bounds from {-1000,-1.5,0,0.25,1000}, per-axis rotation of the pair list; 1-D specialisation too");
-  o.str("point_sets", "sizes {1,2,3,7,50,1000} x every octant (all-negative included) x offsets {0.5,40,2500} x {lattice, tight cluster, collinear} x 8 point types; recompute on the same object; copy-constructed and assigned-to preconditioners; oriented boxes in constructed / copied / assigned form, intervals through assignment");
+  o.str("point_sets", "sizes {1,2,3,7,50,1000} x every octant (all-negative included) x offsets {0.5,40,2500} x {lattice, tight cluster, collinear} x 8 point types; recompute on the same object and on a buffer refilled in place; sets of {9,33,130,513,600,1030} points with the unique extreme at every index in turn; copy-constructed and assigned-to preconditioners; oriented boxes in constructed / copied / assigned form, intervals through assignment");
   return o.done();
 }
 
